@@ -326,6 +326,7 @@ type fakeNode struct {
 	log []string // request/answer log since the last takeLog()
 
 	gov string // governance contract address the watcher is configured with
+	group int32 // chain group the watcher of this case is configured with (checked on page and chain-info requests)
 	key string // X-API-KEY of the current case: late requests of an earlier case's goroutines are refused and not logged
 	seq int
 
@@ -368,6 +369,7 @@ func (n *fakeNode) reset() {
 	defer n.mu.Unlock()
 	n.seq++
 	n.key = fmt.Sprintf("case-%d", n.seq)
+	n.group = int32(n.seq % 4)
 	n.log = nil
 	n.errs = map[string]bool{}
 	n.main = map[string]bool{}
@@ -497,7 +499,7 @@ func (n *fakeNode) serve(w http.ResponseWriter, r *http.Request) {
 			who = "@" + addr
 		}
 		start, err := strconv.Atoi(q.Get("start"))
-		if err != nil || q.Get("limit") != "" {
+		if err != nil || q.Get("limit") != "" || q.Get("group") != strconv.Itoa(int(n.group)) {
 			n.log = append(n.log, "page"+who+":badquery:"+r.URL.RawQuery)
 			n.fail(w, 400)
 			return
@@ -574,6 +576,11 @@ func (n *fakeNode) serve(w http.ResponseWriter, r *http.Request) {
 		defer n.mu.Unlock()
 		if key != n.key { // the case this request belongs to is over
 			n.fail(w, 503)
+			return
+		}
+		if q.Get("fromGroup") != strconv.Itoa(int(n.group)) || q.Get("toGroup") != strconv.Itoa(int(n.group)) {
+			n.log = append(n.log, "height:badquery:"+r.URL.RawQuery)
+			n.fail(w, 400)
 			return
 		}
 		if n.errs["height"] {
